@@ -72,6 +72,13 @@ def allowed(dt, v):
     return {v}
 
 
+def dt_separator_only(v, u):
+    """`u` is `v` with some of its spaces turned into 'T' and nothing else touched: the documented canonicalisation ('T' separator)
+    read as weakly as the property states it — an engine that rewrites only the date/time separator space and leaves the other spaces of
+    an (ill-typed) value alone is within C15; one that alters any other character is not"""
+    return len(u) == len(v) and all(a == b or (a == ' ' and b == 'T') for a, b in zip(v, u))
+
+
 def judge(dt, v, u):
     """`v` the source cell, `u` the lexical form read back from the produced literal. Returns None or what is wrong."""
     if u in allowed(dt, v):
@@ -96,6 +103,8 @@ def judge(dt, v, u):
     if dt == DT:
         if is_dt_lex(v):
             return f'valid dateTime {v!r} was rewritten to {u!r}'
+        if dt_separator_only(v, u):
+            return None
         return f'dateTime column: {v!r} became {u!r} (source form or {v.replace(" ", "T")!r} expected)'
     return f'datatype {dt!r}: lexical form {v!r} was rewritten to {u!r}'
 
@@ -175,7 +184,7 @@ def random_value(rng):
     if k < 0.75:
         y, mo, d, h, mi, s = rng.randrange(0, 3000), rng.randrange(1, 13), rng.randrange(1, 29), rng.randrange(0, 24), rng.randrange(0, 60), rng.randrange(0, 60)
         sep = rng.choice([' ', ' ', ' ', 'T', '  ', '', 't'])
-        frac = rng.choice(['', '', '.%d' % rng.randrange(0, 10 ** 6)])
+        frac = rng.choice(['', '', '.%d' % rng.randrange(0, 10 ** 6), '.%0*d' % (rng.randrange(1, 7), rng.randrange(0, 100))])
         tz = rng.choice(['', '', 'Z', '+02:00', ' +02:00', '-11:30'])
         return f'{y:04d}-{mo:02d}-{d:02d}{sep}{h:02d}:{mi:02d}:{s:02d}{frac}{tz}'
     alphabet = 'abcXYZ019 .-+eE\\"\'\n\t\r\b\féÉİß€'
